@@ -72,6 +72,7 @@ type Step struct {
 	SOps    []SOp      `json:"sops,omitempty"`
 	Edit    []EditItem `json:"edit,omitempty"`
 	HasEdit bool       `json:"has_edit,omitempty"`
+	NoWire  bool       `json:"no_wire,omitempty"` // do not compare this phase\'s wire frames with the model (covered elsewhere)
 	ROps    []ROp      `json:"rops,omitempty"`
 	WhoA    bool       `json:"who_a,omitempty"`
 	On      bool       `json:"on,omitempty"`
@@ -702,7 +703,11 @@ func phaseTerm(st *Step, po *PhaseObs) string {
 	if st.HasEdit {
 		edit = "(Some " + core.List(po.Edited) + ")"
 	}
-	return fmt.Sprintf("StPhase %s %s %s %s %s %s %s", core.Bool(st.ASends), core.List(so), core.List(se), core.List(wf), edit, core.List(ro), core.List(rr))
+	wire := "(Some " + core.List(wf) + ")"
+	if st.NoWire {
+		wire = "None"
+	}
+	return fmt.Sprintf("StPhase %s %s %s %s %s %s %s", core.Bool(st.ASends), core.List(so), core.List(se), wire, edit, core.List(ro), core.List(rr))
 }
 
 // first-frame digest terms are filled in by Exec through these fields
